@@ -60,11 +60,44 @@ func newRoler(c *core.Ctx, root *core.Fn, opaque func(*types.Func) bool) *roler 
 	e.MaxDepth = 5
 	e.Opaque = opaque
 	r := &roler{c: c, e: e, root: root, g: cfgq.Of(c.Program, root), names: map[types.Object]string{}, sites: map[*ast.CallExpr][]flow.Site{}}
-	e.Walk(r.g, root.Decl.Body, func(s flow.Site, n ast.Node) {
-		if call, ok := n.(*ast.CallExpr); ok {
-			r.sites[call] = append(r.sites[call], s)
+	// every call reachable from the root with the frames through which it is
+	// reached; calls through function values (a method value in a local, an entry
+	// of a package-level table of functions) are entered for each possible target
+	var visit func(s flow.Site, n ast.Node)
+	entered := map[string]bool{}
+	visit = func(s flow.Site, n ast.Node) {
+		call, ok := n.(*ast.CallExpr)
+		if !ok {
+			return
 		}
-	})
+		r.sites[call] = append(r.sites[call], s)
+		if core.CalleeFunc(s.G.Info, call) != nil {
+			return
+		}
+		id, ok := ast.Unparen(call.Fun).(*ast.Ident)
+		if !ok {
+			return
+		}
+		cands, ok := r.funcCands(s, id, 0)
+		if !ok {
+			return
+		}
+		for _, cd := range cands {
+			fn := c.FnOf(cd.f)
+			if fn == nil || fn.Decl == nil || fn.Decl.Body == nil {
+				continue
+			}
+			key := siteKey(call, s.Up) + "->" + cd.f.FullName()
+			if entered[key] {
+				continue
+			}
+			entered[key] = true
+			if hs, ok := e.EnterFunc(s, call, fn, cd.methodExpr, cd.recv); ok {
+				e.WalkFrom(hs, fn.Decl.Body, visit)
+			}
+		}
+	}
+	e.Walk(r.g, root.Decl.Body, visit)
 	return r
 }
 
@@ -218,6 +251,28 @@ func (r *roler) roleD(s flow.Site, x ast.Expr, d int) string {
 		rx, ri := r.roleD(s, v.X, d+1), r.roleD(s, v.Index, d+1)
 		if ri == "key("+rx+")" {
 			return "elem(" + rx + ")"
+		}
+		if strings.HasPrefix(ri, "=") {
+			// a constant key into a package-level table that is never written: the entry
+			if lit := r.tableLiteral(info, v.X); lit != nil {
+				_, isMap := info.TypeOf(lit).Underlying().(*types.Map)
+				pos := 0
+				for _, el := range lit.Elts {
+					if kv, ok := el.(*ast.KeyValueExpr); ok {
+						if r.roleD(s, kv.Key, d+1) == ri {
+							return r.roleD(s, kv.Value, d+1)
+						}
+						continue
+					}
+					if !isMap && ri == "="+strconv.Itoa(pos) {
+						return r.roleD(s, el, d+1)
+					}
+					pos++
+				}
+				if isMap {
+					return zeroRole(info.TypeOf(v))
+				}
+			}
 		}
 		return rx + "[" + ri + "]"
 	case *ast.SliceExpr:
@@ -920,6 +975,77 @@ func (r *roler) rangeRole(s flow.Site, id *ast.Ident, d int) string {
 	return "elem(" + r.roleD(s, rs.X, d+1) + ")"
 }
 
+// methodValueRecv: obj is the receiver of the helper the site is in, and the
+// helper was entered through a method value held in a local (`f := x.M; f()`):
+// the receiver is the x of that method value.
+func (r *roler) methodValueRecv(s flow.Site, obj types.Object, d int) (string, bool) {
+	if len(s.Up) == 0 {
+		return "", false
+	}
+	fr := s.Up[0]
+	id, ok := ast.Unparen(fr.Call.Fun).(*ast.Ident)
+	if !ok {
+		return "", false
+	}
+	v, ok := obj.(*types.Var)
+	if !ok {
+		return "", false
+	}
+	// is obj a receiver? (declared in a function scope, and some method's Recv())
+	isRecv := false
+	if named := core.NamedTypeName(v.Type()); named != "" {
+		if tn, ok := v.Pkg().Scope().Lookup(named).(*types.TypeName); ok {
+			if nt, ok := tn.Type().(*types.Named); ok {
+				for i := 0; i < nt.NumMethods(); i++ {
+					if sig, ok := nt.Method(i).Type().(*types.Signature); ok && sig.Recv() == v {
+						isRecv = true
+					}
+				}
+			}
+		}
+	}
+	if !isRecv {
+		return "", false
+	}
+	at := flow.Site{G: fr.G, At: fr.At, Up: s.Up[1:]}
+	var parts []string
+	var of func(s flow.Site, id *ast.Ident, depth int) bool
+	of = func(s flow.Site, id *ast.Ident, depth int) bool {
+		if depth > 6 {
+			return false
+		}
+		st := r.e.Step(s, id)
+		if !st.Local || st.Unsafe {
+			return false
+		}
+		visit := func(s flow.Site, x ast.Expr) bool {
+			switch e := ast.Unparen(x).(type) {
+			case *ast.SelectorExpr:
+				if sel, ok := s.G.Info.Selections[e]; ok && sel.Kind() == types.MethodVal {
+					parts = append(parts, r.roleD(s, e.X, d+1))
+					return true
+				}
+			case *ast.Ident:
+				return of(s, e, depth+1)
+			}
+			return false
+		}
+		if st.Entry && (!st.Bound || !visit(st.ArgSite, st.Arg)) {
+			return false
+		}
+		for _, def := range st.Defs {
+			if def.RHS == nil || !visit(def.Site, def.RHS) {
+				return false
+			}
+		}
+		return len(parts) > 0
+	}
+	if !of(at, id, 0) {
+		return "", false
+	}
+	return union(parts), true
+}
+
 // implicitRole: the variable bound by a type switch `switch h := X.(type)`.
 func (r *roler) implicitRole(s flow.Site, obj types.Object, d int) (string, bool) {
 	info := s.G.Info
@@ -1003,7 +1129,9 @@ func (r *roler) identRole(s flow.Site, id *ast.Ident, d int) string {
 		case r.names[st.Obj] != "":
 			parts = append(parts, r.names[st.Obj])
 		default:
-			if ir, ok := r.implicitRole(s, st.Obj, d); ok {
+			if rr, ok := r.methodValueRecv(s, st.Obj, d); ok {
+				parts = append(parts, rr)
+			} else if ir, ok := r.implicitRole(s, st.Obj, d); ok {
 				parts = append(parts, ir)
 			} else if isNamedResult(s.G, st.Obj) {
 				parts = append(parts, zeroRole(st.Obj.Type()))
@@ -1133,8 +1261,183 @@ func (r *roler) callRole(s flow.Site, call *ast.CallExpr, idx int, d int) string
 	}
 	f := core.CalleeFunc(info, call)
 	if f == nil {
+		// a call through a function or method value held in a local (or handed down
+		// as a parameter): the result is what each possible target yields at this call
+		if id, ok := ast.Unparen(call.Fun).(*ast.Ident); ok {
+			if cands, ok := r.funcValues(s, id, 0); ok && len(cands) > 0 {
+				var parts []string
+				for _, cf := range cands {
+					parts = append(parts, r.callRoleOf(s, call, cf, idx, d))
+				}
+				return union(parts)
+			}
+		}
 		return "?dynamic-call"
 	}
+	return r.callRoleOf(s, call, f, idx, d)
+}
+
+// fnCand is one possible target of a call through a function value.
+type fnCand struct {
+	f          *types.Func
+	methodExpr bool     // `(*T).M`: the receiver is the first argument of the call
+	recv       ast.Expr // `x.M`: the receiver expression of the method value
+}
+
+// funcValues lists the functions a function-typed local can hold at s.
+func (r *roler) funcValues(s flow.Site, id *ast.Ident, depth int) ([]*types.Func, bool) {
+	cands, ok := r.funcCands(s, id, depth)
+	var out []*types.Func
+	for _, c := range cands {
+		out = append(out, c.f)
+	}
+	return out, ok
+}
+
+// funcCands lists the possible targets of a function-typed local at s: method
+// values `x.M`, method expressions `(*T).M`, declared functions, the entries of
+// a package-level table that is never written (`f := table[k]`, `f, ok :=
+// table[k]`: any entry), followed through definitions and parameter binding.
+// ok is false when some origin is not of that kind.
+func (r *roler) funcCands(s flow.Site, id *ast.Ident, depth int) ([]fnCand, bool) {
+	if depth > 6 {
+		return nil, false
+	}
+	var out []fnCand
+	var of func(s flow.Site, x ast.Expr) bool
+	of = func(s flow.Site, x ast.Expr) bool {
+		info := s.G.Info
+		switch v := ast.Unparen(x).(type) {
+		case *ast.SelectorExpr:
+			if sel, ok := info.Selections[v]; ok {
+				if f, isF := sel.Obj().(*types.Func); isF {
+					switch sel.Kind() {
+					case types.MethodVal:
+						out = append(out, fnCand{f: f, recv: v.X})
+						return true
+					case types.MethodExpr:
+						out = append(out, fnCand{f: f, methodExpr: true})
+						return true
+					}
+				}
+			}
+			if f, ok := info.Uses[v.Sel].(*types.Func); ok {
+				out = append(out, fnCand{f: f})
+				return true
+			}
+		case *ast.Ident:
+			if f, ok := info.Uses[v].(*types.Func); ok {
+				out = append(out, fnCand{f: f})
+				return true
+			}
+			more, ok := r.funcCands(s, v, depth+1)
+			out = append(out, more...)
+			return ok
+		case *ast.IndexExpr:
+			lit := r.tableLiteral(info, v.X)
+			if lit == nil || len(lit.Elts) == 0 {
+				return false
+			}
+			for _, el := range lit.Elts {
+				val := el
+				if kv, ok := el.(*ast.KeyValueExpr); ok {
+					val = kv.Value
+				}
+				if !of(s, val) {
+					return false
+				}
+			}
+			return true
+		}
+		return false
+	}
+	st := r.e.Step(s, id)
+	if !st.Local || st.Unsafe {
+		return nil, false
+	}
+	if st.Entry {
+		if !st.Bound || !of(st.ArgSite, st.Arg) {
+			return nil, false
+		}
+	}
+	for _, def := range st.Defs {
+		switch {
+		case def.RHS != nil:
+			if !of(def.Site, def.RHS) {
+				return nil, false
+			}
+		default:
+			// comma-ok lookup `f, ok := table[k]`
+			as, ok := def.Node.(*ast.AssignStmt)
+			if !ok || def.Idx != 0 || len(as.Rhs) != 1 || !of(def.Site, as.Rhs[0]) {
+				return nil, false
+			}
+		}
+	}
+	return out, true
+}
+
+// tableLiteral: x names a package-level map/slice/array variable that is
+// initialised with a composite literal and never written in its package.
+func (r *roler) tableLiteral(info *types.Info, x ast.Expr) *ast.CompositeLit {
+	id, ok := ast.Unparen(x).(*ast.Ident)
+	if !ok {
+		return nil
+	}
+	table, ok := info.Uses[id].(*types.Var)
+	if !ok || table.Pkg() == nil || table.Parent() != table.Pkg().Scope() {
+		return nil
+	}
+	var files []*ast.File
+	for _, pk := range r.c.Program.Pkgs {
+		if pk.TypesInfo == info {
+			files = pk.Syntax
+		}
+	}
+	var lit *ast.CompositeLit
+	written := false
+	for _, f := range files {
+		ast.Inspect(f, func(n ast.Node) bool {
+			switch v := n.(type) {
+			case *ast.ValueSpec:
+				for i, nm := range v.Names {
+					if info.Defs[nm] == table && len(v.Values) == len(v.Names) {
+						lit, _ = ast.Unparen(v.Values[i]).(*ast.CompositeLit)
+					}
+				}
+			case *ast.AssignStmt:
+				for _, l := range v.Lhs {
+					base := ast.Unparen(l)
+					if ix, ok := base.(*ast.IndexExpr); ok {
+						base = ast.Unparen(ix.X)
+					}
+					if b, ok := base.(*ast.Ident); ok && info.Uses[b] == table {
+						written = true
+					}
+				}
+			case *ast.UnaryExpr:
+				if b, ok := ast.Unparen(v.X).(*ast.Ident); ok && v.Op == token.AND && info.Uses[b] == table {
+					written = true
+				}
+			case *ast.CallExpr:
+				if bi, ok := core.Callee(info, v).(*types.Builtin); ok && bi.Name() == "delete" && len(v.Args) > 0 {
+					if b, ok := ast.Unparen(v.Args[0]).(*ast.Ident); ok && info.Uses[b] == table {
+						written = true
+					}
+				}
+			}
+			return !written
+		})
+	}
+	if written {
+		return nil
+	}
+	return lit
+}
+
+// callRoleOf is callRole for a known callee (the static one, or one candidate of
+// a call through a function value).
+func (r *roler) callRoleOf(s flow.Site, call *ast.CallExpr, f *types.Func, idx int, d int) string {
 	if r.leafCall != nil {
 		if out, ok := r.leafCall(s, call, f, idx, d); ok {
 			return out
@@ -1168,6 +1471,16 @@ func (r *roler) leafRender(s flow.Site, call *ast.CallExpr, f *types.Func, idx i
 	if sel, ok := ast.Unparen(call.Fun).(*ast.SelectorExpr); ok {
 		if sl, ok := info.Selections[sel]; ok && sl.Kind() == types.MethodVal {
 			head = r.roleD(s, sel.X, d+1) + "." + f.Name()
+		}
+	}
+	if id, ok := ast.Unparen(call.Fun).(*ast.Ident); ok {
+		// a method value `x.M` held in a local and called: x.M(args), as if called directly
+		if cands, ok := r.funcCands(s, id, 0); ok {
+			for _, cd := range cands {
+				if cd.f == f && cd.recv != nil && len(cands) == 1 {
+					head = r.roleD(s, cd.recv, d+1) + "." + f.Name()
+				}
+			}
 		}
 	}
 	out := head + "(" + strings.Join(as, ",") + ")"
